@@ -18,14 +18,15 @@ RULE = (
     "Two generated families. 'release': a C05-style history (views, reads, in-place updates incl. where=/out=) "
     "with a weighted terminal L; L.backward(); then the harness drops every handle except the leaves and a drawn "
     "subset of intermediates and performs 1-4 drawn follow-up actions on kept tensors (view-only op, non-view op, "
-    "in-place update, second backward through a fresh graph, null_grad). 'iterate': a functional DAG re-executed "
+    "in-place update - also through a kept former view -, second backward through a fresh graph, null_grad). 'iterate': a functional DAG re-executed "
     "2-4 times on the same leaf tensors with backward each time. Oracles (cyclic GC disabled for the whole case): "
     "(a) every tensor reachable from L through creator->inputs before backward (incl. internal placeholders) has "
     "no creator and no recorded consumers afterwards; (b) census: live mygrad Tensor/Operation instances minus "
     "the pre-case baseline == exactly the tensors the harness still references and 0 operations; (c) a kept "
     "leaf's .grad is bit-unchanged until its next use, survives a view-only op, reads None (as do its views) "
     "after a non-view op / in-place update / null_grad, and after a second backward equals the fresh gradient, "
-    "not an accumulation; (d) repeating the identical step gives bit-identical gradients. Non-trivial = history "
+    "not an accumulation, and kept views of it then read None or the corresponding view of the fresh gradient; a leaf "
+    "that was neither used nor mutated keeps its gradient; (d) repeating the identical step gives bit-identical gradients. Non-trivial = history "
     "with an in-place update before backward, or >=2 iterations, or a kept intermediate that is a view; distinct "
     "by skeleton + actions."
 )
@@ -44,6 +45,20 @@ def census(mg):
         elif isinstance(o, Operation):
             no += 1
     return nt, no, ids
+
+
+def _corresponding_view(xd, td, g):
+    """the region of g that corresponds to where td sits inside xd (same offset/strides), when xd and g are both
+    C-contiguous arrays of one dtype and td lies inside xd's buffer; else None (no value comparison)"""
+    if not (xd.flags.c_contiguous and g.flags.c_contiguous and xd.shape == g.shape and xd.dtype == g.dtype and xd.size):
+        return None
+    off = td.__array_interface__["data"][0] - xd.__array_interface__["data"][0]
+    lo = off + sum(min(0, st_) * (n - 1) for st_, n in zip(td.strides, td.shape))
+    hi = off + sum(max(0, st_) * (n - 1) for st_, n in zip(td.strides, td.shape)) + td.itemsize
+    if lo < 0 or hi > xd.nbytes or td.dtype != xd.dtype:
+        return None
+    flat = g.reshape(-1)
+    return np.lib.stride_tricks.as_strided(flat[off // g.itemsize:], shape=td.shape, strides=td.strides) if lo >= off else None
 
 
 @st.composite
@@ -75,7 +90,7 @@ def cases(draw):
     tens = [h for h in r.env if r.is_tensor[h]]
     keep_extra = [h for h in tens if draw(st.integers(0, 3)) == 0]
     actions = draw(st.lists(st.sampled_from(["view", "use", "use", "use", "inplace", "inplace_via_view", "shape_assign",
-                                             "backward2", "null_grad", "read_grad"]),
+                                             "backward2", "backward2", "null_grad", "read_grad", "inplace_kept_view"]),
                             min_size=1, max_size=4))
     picks = draw(st.lists(st.integers(0, 50), min_size=len(actions), max_size=len(actions)))
     return {"mode": mode, "prog": b.prog, "L": L, "keep": keep_extra, "actions": actions, "picks": picks}
@@ -159,6 +174,7 @@ def check_release(case, rec):
         # (c) follow-up actions on kept non-constant leaves
         cands = [h for h in sorted(run.env) if h in leaves and isinstance(run.env[h], mg.Tensor) and not run.env[h].constant
                  and run.env[h].dtype.kind == "f" and run.env[h].size > 0]
+        refrun = None
         for act, pk in zip(case["actions"], case["picks"]):
             if not cands:
                 break
@@ -247,6 +263,35 @@ def check_release(case, rec):
                 if x.grad is not None or v.grad is not None:
                     return Mismatch("stale_grad_after_inplace", f"h{h}.grad is still set after an in-place update through a view of h{h}")
                 del v
+            elif act == "inplace_kept_view":
+                # in-place update of a tensor the caller kept that is (or was, before backward released the view
+                # bookkeeping) a view of x: either the write reaches x's memory - then x was mutated and its gradient
+                # must be gone - or it does not, and then x was neither used nor mutated: its gradient persists
+                if refrun is None:
+                    refrun = ir.RefRun(prog).run()
+                # (views NumPy itself makes read-only, e.g. broadcast_to, are no in-place targets)
+                views = [t for hh, t in run.env.items() if isinstance(t, mg.Tensor) and t is not x and t.base is x
+                         and not t.constant and t.size > 0 and refrun.env[hh].flags.writeable]
+                if not views:
+                    del views
+                    continue
+                v = views[(pk // 7) % len(views)]
+                d0 = x.data.tobytes()
+                try:
+                    if pk % 2:
+                        v *= 3.0
+                    else:
+                        v[...] = 0.25
+                except Exception as e:  # noqa: BLE001
+                    return Mismatch("inplace_after_backward_raised", f"in-place update of a kept view of h{h} after backward: {fmt_exc(e)}")
+                reached = np.shares_memory(v.data, x.data) or x.data.tobytes() != d0
+                g1 = x.grad
+                if reached and g1 is not None:
+                    return Mismatch("stale_grad_after_inplace", f"h{h}.grad is still set after an in-place update through a kept view of h{h}")
+                if not reached and g0b is not None and (g1 is None or (g1.tobytes(), g1.shape, str(g1.dtype)) != g0b):
+                    return Mismatch("grad_lost_without_use", f"h{h} was neither used nor mutated (a former view of it was updated "
+                                                             f"in place and now owns its memory) but h{h}.grad changed")
+                del v, views
             elif act == "shape_assign":
                 if not x.data.flags.c_contiguous:
                     continue
@@ -277,6 +322,21 @@ def check_release(case, rec):
                     if g1 is None or not np.array_equal(g1, w.astype(x.dtype)):
                         return Mismatch("second_backward_wrong", f"h{h}.grad after a second backward is not the fresh gradient "
                                                                  f"(accumulated or stale): {None if g1 is None else g1.ravel()[:4].tolist()}")
+                    # tensors the caller kept that are views of x: None until recomputed, or the corresponding view of
+                    # the *fresh* gradient - never the gradient of the earlier pass
+                    t = gv = None
+                    for t in [t_ for t_ in run.env.values() if isinstance(t_, mg.Tensor) and t_ is not x and t_.base is x and t_.size > 0]:
+                        gv = t.grad
+                        if gv is None:
+                            continue
+                        if not np.shares_memory(gv, g1):
+                            return Mismatch("stale_view_grad", f"after a second backward through h{h}, a kept view of h{h} reports a gradient "
+                                                               f"that is not a view of h{h}.grad: {gv.ravel()[:4].tolist()}")
+                        exp_v = _corresponding_view(x.data, t.data, g1)
+                        if exp_v is not None and (gv.shape != exp_v.shape or not np.array_equal(gv, exp_v)):
+                            return Mismatch("stale_view_grad", f"after a second backward through h{h}, a kept view of h{h} reports "
+                                                               f"{gv.ravel()[:4].tolist()}, the corresponding view of h{h}.grad is {exp_v.ravel()[:4].tolist()}")
+                    del t, gv
                 del L2
             del x
         return None
